@@ -1,4 +1,8 @@
-use std::{cmp::min, num::NonZeroU64, sync::Arc};
+use std::{
+    cmp::{max, min},
+    num::NonZeroU64,
+    sync::Arc,
+};
 
 use anyhow::Context;
 
@@ -176,7 +180,9 @@ impl<T: Target + 'static> Loop<T> {
                             tracing::error!("updater job failed: {err:#}");
                             interval.reset_after(backoff);
                             tracing::info!("trying in {} seconds", backoff.as_secs());
-                            backoff = min(self.period, backoff * 2);
+                            // never back off for less than the first retry delay, even when
+                            // the configured period is shorter than that
+                            backoff = min(max(self.period, MIN_BACKOFF), backoff * 2);
                         }
                     }
                 }
